@@ -23,6 +23,10 @@ def revPushCall : String := "R.os.Push(&node{ target: T, DEPTH: DEPTH, })"
 def isSameTarget : List String := ["if LHS == RHS { return true }", "return LHS.Label.Parent() == RHS.Label.Parent()"]
 def revInitDepths : List String := ["0", "0"]
 def revChildCond : String := "!HIDDEN && !label.IsHidden()"
+def buildRevdeps : List String := ["F1 := GRAPH.AllTargets()", "F2 := make(map[core.BuildLabel][]*core.BuildTarget, len(F1))", "for _, v01 := range F1 { for _, v02 := range v01.DeclaredDependencies() { if v03 := GRAPH.Target(v02); v03 == nil { F2[v02] = append(F2[v02], v03) } else { for _, v04 := range v03.ProvideFor(v01) { F2[v04] = append(F2[v04], v01) } } } if SUBREPOS && v01.Subrepo != nil && v01.Subrepo.Target != nil { F2[v01.Subrepo.Target.Label] = append(F2[v01.Subrepo.Target.Label], v01) } }", "return F2"]
+def findRevdepsEntry : List String := ["F1 := newRevdeps(STATE.Graph, HIDDEN, FOLLOW, SUBREPOS, DEPTH)", "for _, v01 := range ROOTS { v02 := STATE.Graph.TargetOrDie(v01) F1.os.Push(&node{ v02: v02, DEPTH: 0, }) if !HIDDEN && !v01.IsHidden() { for _, v03 := range STATE.Graph.PackageByLabel(v01).AllTargets() { if v03.Parent(STATE.Graph) == v02 { F1.os.Push(&node{ v02: v03, DEPTH: 0, }) } } } }", "return F1.findRevdeps(STATE)"]
+def revLookup : List String := ["ts := R.revdeps[NEXT.target.Label]"]
+def depsEntry : List String := ["F1 := map[core.BuildLabel]bool{}", "for _, v01 := range ROOTS { deps(OUT, STATE, STATE.Graph.TargetOrDie(v01), F1, LIMIT, 0, HIDDEN, DOT) }"]
 def spGuards : List String := ["T1.Label == T2.Label => return []core.BuildLabel{T1.Label}", "T1.Parent(GRAPH) == T2 => return []core.BuildLabel{T1.Label}", "SEEN[T1.Label] present => return nil"]
 def spMark : String := "SEEN[T1.Label] = struct{}{}"
 def spLoop : List String := ["DeclaredDependencies", "ProvideFor", "TargetOrDie", "[]core.BuildLabel{T1.Label}"]
